@@ -279,8 +279,10 @@ def run_cli_case(case, ctx, res):
             res.n += 1
             # the comment style is part of how a notice is written down and read again: letters as markers (c, REM, dnl), '!', '%'
             ext, short = rng.choice(FILE_KINDS)
-            f = root / f"f{j}{ext}"
+            f = root / f"d{j}" / f"f{j}{ext}"
+            f.parent.mkdir()
             stl = ctx.state["styles"][short]
+            sidecar = False
             hs = holders(rng, rng.randint(1, 2))
             with_licence = rng.random() < 0.7
             merge = rng.random() < 0.6
@@ -298,7 +300,13 @@ def run_cli_case(case, ctx, res):
                         line = notice.build(rng.choice(list(notice.PREFIXES)), y, h)
                         pre.append(line)
                         stated.setdefault(h, []).extend(notice.decompose(line)[1] or [])
-                body = trees.comment_block(stl, pre + (["", "SPDX-License-Identifier: MIT"] if with_licence else [])) + "\n\n" + body
+                if rng.random() < 0.3:
+                    # the earlier notices live in a FILE.license sidecar and the file is reached by walking its directory (-r)
+                    sidecar = True
+                    (f.parent / (f.name + ".license")).write_text("\n".join(pre + (["", "SPDX-License-Identifier: MIT"] if with_licence else [])) + "\n")
+                    res.cell("cli-sidecar-recursive")
+                else:
+                    body = trees.comment_block(stl, pre + (["", "SPDX-License-Identifier: MIT"] if with_licence else [])) + "\n\n" + body
                 res.cell("cli-handwritten-start")
             f.write_text(body)
             template = rng.choice(["custom", "nocontrib"] + (["commented"] if short == "python" else [])) if rng.random() < 0.3 else None
@@ -327,7 +335,7 @@ def run_cli_case(case, ctx, res):
                     args += ["--year", y]
                 if plan[s]:
                     args.append("--merge-copyrights")
-                args.append(str(f))
+                args += ["-r", str(f.parent)] if sidecar else [str(f)]
                 r = run_cli(args, cwd=str(root))
                 if r.escaped or r.exit_code != 0:
                     res.violation("annotate-failed", f"annotate exit {r.exit_code} {r.exc_type} for holders {hs}", args=args[4:], **r.brief())
@@ -348,9 +356,9 @@ def run_cli_case(case, ctx, res):
             except ValueError:
                 res.violation("lint-gives-no-report", f"lint --json exit {rj.exit_code} without a report", **rj.brief())
                 continue
-            fe = next((x for x in data["files"] if x["path"] == f.name), None)
+            fe = next((x for x in data["files"] if x["path"] == f"d{j}/{f.name}"), None)
             got = {c["value"] for c in fe["copyrights"]} if fe else set()
-            if steps == 1 and body == "print('x')\n":
+            if steps == 1 and body == "print('x')\n" and not sidecar:
                 if got != last_lines:
                     res.violation("cli-round-trip", f"annotate wrote / lint reads {sorted(got)}; requested {sorted(last_lines)}", args=args[4:])
             else:
